@@ -7,7 +7,7 @@
     recompute is EngineLocal's [C12_midpass_noninterference_recompute_partial], lifted here over
     the direct-recompute chain and the pass loop). *)
 From incr Require Import Base Heap HeapSpec EngineDefs Engine EngineRun EngineWf Spec EngineLemmas EngineLocal
-     PassInv PassProofs PassPlanProofs.
+     EngineInv EngineInvProofs PassInv PassProofs PassPlanProofs PassPlanProofs2.
 
 (** A plan-free pass of such a state always succeeds: no crash, enough fuel, no error. *)
 Theorem C12_static_plan_free_pass_total : forall s,
@@ -71,3 +71,41 @@ Proof.
   split; [vm_compute; reflexivity|]. split; [vm_compute; reflexivity|]. split; [vm_compute; reflexivity|].
   split; vm_compute; reflexivity.
 Qed.
+
+(** ** On top of the structural invariant [EngineInv.Inv] (C05) *)
+
+(** the structural invariant (hence [wfb]) after a pass with writes *)
+Theorem C12_static_Inv_after_writes : forall s p s',
+  Inv s -> ValInv s -> writes_only p = true -> plan_ok s p = true ->
+  stabilize p false s = Ok (s', None) -> Inv s' /\ wfb s' = true /\ ValInv s'.
+Proof. exact pass_writes_Inv. Qed.
+Print Assumptions C12_static_Inv_after_writes.
+
+(** a pass with writes cannot return an error *)
+Theorem C12_static_writes_no_error : forall s p s' e,
+  wfb s = true -> ValInv s -> writes_only p = true -> stabilize p false s = Ok (s', e) -> e = None.
+Proof. exact writes_no_error. Qed.
+Print Assumptions C12_static_writes_no_error.
+
+(** no deferred value survives the pass: if no var holds a pending value before it, none does
+    after it (during the pass a var holds one only while it is filed in [setDuring]: [PendQ]) *)
+Theorem C12_static_no_pending_after : forall s p s',
+  wfb s = true -> ValInv s -> PendNone s -> writes_only p = true -> plan_ok s p = true ->
+  stabilize p false s = Ok (s', None) -> PendNone s'.
+Proof. exact pass_writes_pending. Qed.
+Print Assumptions C12_static_no_pending_after.
+
+(** histories: for every clean ([EngineInv.run_clean]) history of the fragment ([static_op2]: no
+    binds, passes with writing plans or with one failing node function allowed) from the empty
+    graph, every pass with a writing plan succeeds and is related to the write-free pass as in
+    [C12_static_noninterference]; no structural hypothesis *)
+Theorem C12_history_bindfree : forall mh os1 p os2 s',
+  (0 < mh)%nat -> writes_only p = true -> forallb static_op2 (os1 ++ Stabilize p :: os2) = true ->
+  run_clean (init mh) (os1 ++ Stabilize p :: os2) = Some s' ->
+  exists s1 s2, run_clean (init mh) os1 = Some s1 /\ step s1 (Stabilize p) = Ok (s2, None) /\
+    (exists t' sLp sL at_ al, writesEnd s1 p s2 t' sLp sL at_ al) /\ Inv s2 /\ ValInv s2.
+Proof. exact history_writes_pass. Qed.
+Print Assumptions C12_history_bindfree.
+
+Example C12_static_ex_pending : PendNone ex_pre.
+Proof. apply pendnone_b_sound. vm_compute. reflexivity. Qed.
